@@ -26,6 +26,8 @@ fn decode_ops(h: &[u8]) -> Vec<WOp> {
 #[derive(Clone, Debug)]
 pub struct Case {
     pub ty: Ty,
+    /// the destinations already hold longer stale content (a reused buffer)
+    pub prefill: bool,
     pub with_shx: bool,
     pub ending: Ending,
     pub ops: Vec<WOp>,
@@ -35,17 +37,19 @@ impl Case {
     fn from_hist(h: &Hist) -> Case {
         Case {
             ty: ALL13[h[0] as usize],
-            with_shx: h[1] == 1,
+            prefill: h[1] == 2,
+            with_shx: h[1] >= 1,
             ending: ENDINGS[h[2] as usize],
             ops: decode_ops(&h[CFG..]),
         }
     }
     pub fn to_json(&self) -> Value {
-        json!({"ty": self.ty.name(), "with_shx": self.with_shx, "ending": self.ending.name(), "ops": ops_name(&self.ops)})
+        json!({"ty": self.ty.name(), "prefill": self.prefill, "with_shx": self.with_shx, "ending": self.ending.name(), "ops": ops_name(&self.ops)})
     }
     pub fn from_json(v: &Value) -> Option<Case> {
         Some(Case {
             ty: Ty::from_name(v.get("ty")?.as_str()?)?,
+            prefill: v.get("prefill").and_then(|x| x.as_bool()).unwrap_or(false),
             with_shx: v.get("with_shx")?.as_bool()?,
             ending: Ending::from_name(v.get("ending")?.as_str()?)?,
             ops: ops_from_name(v.get("ops")?.as_str()?)?,
@@ -91,8 +95,30 @@ pub struct FSnap {
     pub so_far: Vec<u8>,
 }
 
+/// With stale content behind the new file a Write + Seek destination cannot be
+/// truncated: the image is judged up to the length its header declares.
+fn declared_view(prefill: bool, b: &[u8]) -> &[u8] {
+    if !prefill {
+        return b;
+    }
+    match b.get(24..28).map(|x| i32::from_be_bytes(x.try_into().unwrap()) as i64 * 2) {
+        Some(l) if l >= 100 && l as usize <= b.len() => &b[..l as usize],
+        _ => b,
+    }
+}
+
+fn stale(env: &WEnv) {
+    env.shp.0.borrow_mut().data = vec![0xEE; 3000];
+    if let Some(x) = &env.shx {
+        x.0.borrow_mut().data = vec![0xEE; 1500];
+    }
+}
+
 pub fn observe(pal: &Palette, case: &Case) -> Obs {
     let env = WEnv::new(case.with_shx);
+    if case.prefill {
+        stale(&env);
+    }
     let mut after_f = vec![];
     let mut so_far: Vec<u8> = vec![];
     let mut clean = false; // a finalize succeeded and nothing was written since
@@ -125,6 +151,9 @@ pub fn observe(pal: &Palette, case: &Case) -> Obs {
     let acc = accepted(&case.ops, case.ending, &results);
     // reference run on the same tree: the same shapes, then drop
     let renv = WEnv::new(case.with_shx);
+    if case.prefill {
+        stale(&renv);
+    }
     let rops: Vec<WOp> = acc.iter().filter(|k| **k < 2).map(|k| WOp::W(*k)).collect();
     let nc = acc.iter().filter(|k| **k == 2).count();
     // c-shapes only ever come last (from the ending), so the reference is
@@ -167,11 +196,11 @@ pub fn judge(pal: &Palette, case: &Case, o: &Obs) -> Vec<(String, String)> {
     let acc = accepted(&case.ops, case.ending, &o.results);
     let handed: Vec<MRead> = acc.iter().map(|k| pal.built[*k as usize].clone()).collect();
     // the reference run itself must be a valid file holding exactly these shapes
-    if let Some(c) = shp_holds_exactly(&o.ref_shp, pal.ty, &handed) {
+    if let Some(c) = shp_holds_exactly(declared_view(case.prefill, &o.ref_shp), pal.ty, &handed) {
         out.push((format!("reference-run-invalid:{}", clause_class(&c)), format!("writes+drop: {}", c)));
     }
     if let Some(x) = &o.ref_shx {
-        if let Err(e) = shx_matches_shp(&o.ref_shp, x) {
+        if let Err(e) = shx_matches_shp(declared_view(case.prefill, &o.ref_shp), declared_view(case.prefill, x)) {
             out.push((format!("reference-run-invalid:{}", clause_class(&e)), format!("writes+drop: {}", e)));
         }
     }
@@ -206,13 +235,13 @@ pub fn judge(pal: &Palette, case: &Case, o: &Obs) -> Vec<(String, String)> {
             ));
         }
         let so_far: Vec<MRead> = s.so_far.iter().map(|k| pal.built[*k as usize].clone()).collect();
-        if let Some(c) = shp_holds_exactly(&s.shp, pal.ty, &so_far) {
+        if let Some(c) = shp_holds_exactly(declared_view(case.prefill, &s.shp), pal.ty, &so_far) {
             out.push((
                 format!("finalize-incomplete-shp[{}]:{}", pat, clause_class(&c)),
                 format!("after finalize at op {}: {}", s.idx, c),
             ));
         } else if let Some(x) = &s.shx {
-            if let Err(e) = shx_matches_shp(&s.shp, x) {
+            if let Err(e) = shx_matches_shp(declared_view(case.prefill, &s.shp), declared_view(case.prefill, x)) {
                 out.push((
                     format!("finalize-incomplete-shx[{}]:{}", pat, clause_class(&e)),
                     format!("after finalize at op {}: {}", s.idx, e),
@@ -265,6 +294,7 @@ fn run(pals: &[Palette], h: &Hist, ctx: &mut Ctx) {
 fn selftest(pals: &[Palette]) -> (u64, u64) {
     let case = Case {
         ty: Ty::PolylineM,
+        prefill: false,
         with_shx: true,
         ending: Ending::FinalizeDrop,
         ops: vec![WOp::W(0), WOp::F, WOp::F, WOp::W(1)],
@@ -303,7 +333,7 @@ pub fn check(tier: Tier) -> i32 {
     let pals: Arc<Vec<Palette>> = Arc::new(ALL13.iter().map(|t| Palette::new(*t, None)).collect());
     let mut inits = vec![];
     for t in 0..13u8 {
-        for x in 0..2u8 {
+        for x in 0..3u8 {
             for e in 0..ENDINGS.len() as u8 {
                 inits.push(vec![t, x, e]);
             }
@@ -394,7 +424,7 @@ pub fn check(tier: Tier) -> i32 {
             tier,
             level: "model_checking",
             engine: "E1 stateright BFS over operation histories (state = history, no merging), each state executed on the real ShapeWriter over instrumented devices",
-            rule: "every sequence over {write a, write b, finalize} up to the depth bound x 13 types x {with,without .shx} x 6 endings {drop, finalize+drop, write_shapes(self,[c]*k) k=0,1,2, drop by stack unwinding}; plus every history up to depth 3 through ShapeWriter::from_path over paths that already hold longer files; distinct = the history; non-trivial = contains a finalize or a non-drop ending",
+            rule: "every sequence over {write a, write b, finalize} up to the depth bound x 13 types x {without .shx, with .shx, with .shx into buffers that already hold longer stale content} x 6 endings {drop, finalize+drop, write_shapes(self,[c]*k) k=0,1,2, drop by stack unwinding}; plus every history up to depth 3 through ShapeWriter::from_path over paths that already hold longer files; distinct = the history; non-trivial = contains a finalize or a non-drop ending",
             bounds: json!({"depth": depth, "alphabet": ["Wa", "Wb", "F"], "types": 13, "endings": 6, "index": [true, false]}),
             exhaustive: true,
             assumptions: vec![
